@@ -513,6 +513,7 @@ type genCfg struct {
 	slots     int // total contract slots
 	base      int // slots deployed at set-up
 	users     int // candidate keys usable by register / vote
+	dummies   int // accounts to block / unblock
 	maxDepth  int
 	natives   bool
 	committee bool
@@ -619,16 +620,35 @@ func (g *gen) sinkOrSlot() int {
 	return g.target()
 }
 
+// blockTarget picks an account to block (unblock): mostly one that is not
+// (is) blocked in the state the plan starts from.
+func (g *gen) blockTarget(blocked bool) int {
+	r := g.r
+	c := 0
+	for range 8 {
+		c = -1 - r.Intn(g.cfg.dummies)
+		if r.Intn(4) == 0 {
+			c = g.target()
+		}
+		if g.m.blocked[c] == blocked || r.Intn(6) == 0 {
+			break
+		}
+	}
+	return c
+}
+
 // native generates one native-contract effect made by contract cur.
 func (g *gen) native(cur, depth int, inCallback bool) (step, bool) {
 	r := g.r
 	cb := func(c int) (bool, []step) {
-		// payment / deploy callbacks: storage, notifications, calls and throws only
+		// payment / deploy callbacks: mostly storage, notifications, calls and
+		// throws; sometimes native effects too (no nested callbacks, no
+		// deploy / update / destroy)
 		if c < 0 || r.Intn(3) == 0 {
 			return false, nil
 		}
 		sv := g.cfg.natives
-		g.cfg.natives = false
+		g.cfg.natives = sv && r.Intn(3) == 0
 		d := depth - 1
 		if d < 0 {
 			d = 0
@@ -639,7 +659,10 @@ func (g *gen) native(cur, depth int, inCallback bool) (step, bool) {
 	}
 	x := r.Intn(100)
 	if inCallback {
-		return step{}, false
+		if x >= 89 {
+			return step{}, false
+		}
+		cb = func(int) (bool, []step) { return false, nil }
 	}
 	if !g.cfg.committee && ((x >= 48 && x < 72) || (x >= 83 && x < 89)) && r.Intn(6) != 0 {
 		return step{}, false
@@ -676,17 +699,9 @@ func (g *gen) native(cur, depth int, inCallback bool) (step, bool) {
 		}
 		return s, true
 	case x < 66:
-		c := -1 - r.Intn(3)
-		if r.Intn(4) == 0 {
-			c = g.target()
-		}
-		return step{Op: opBlock, C: c}, true
+		return step{Op: opBlock, C: g.blockTarget(false)}, true
 	case x < 72:
-		c := -1 - r.Intn(3)
-		if r.Intn(4) == 0 {
-			c = g.target()
-		}
-		return step{Op: opUnblock, C: c}, true
+		return step{Op: opUnblock, C: g.blockTarget(true)}, true
 	case x < 78:
 		return step{Op: opRegister, X: r.Intn(2)}, true
 	case x < 83:
@@ -746,7 +761,9 @@ func (g *gen) shaped(kind int) []step {
 	r := g.r
 	b := g.cfg.base
 	a, c2, c3 := r.Intn(b), r.Intn(b), r.Intn(b)
-	put := func() step { return step{Op: opPut, K: planKeys[r.Intn(len(planKeys))], V: fmt.Sprint(100 + r.Intn(100))} }
+	put := func() step {
+		return step{Op: opPut, K: planKeys[r.Intn(len(planKeys))], V: fmt.Sprint(100 + r.Intn(100))}
+	}
 	ntf := func() step { return step{Op: opNotify, N: 1000 + r.Intn(1000)} }
 	thr := step{Op: opThrow}
 	small := func(c int) []step { return g.body(c, fAll, 1, false) }
